@@ -274,6 +274,60 @@ def _solver_job(item):
     return part.dump()
 
 
+def _fp_truth_job(sname):
+    """cheap truth checks on FP comparisons: judged by ground evaluation over the FP boundary alphabet (incl. NaN, +-0)"""
+    from .. import fpref as F
+    from .. import valspace as V
+
+    part = Part()
+    S = F.FLOAT if sname == "FLOAT" else F.DOUBLE
+    cs = V.CL_SORT[sname]
+    f = claripy.FPS(f"tf_{sname}", cs, explicit_name=True)
+    g = claripy.FPS(f"tg_{sname}", cs, explicit_name=True)
+    A = V.fp_alphabet(S, "small")
+    ops = {
+        "fpEQ": (claripy.fpEQ, F.eq),
+        "fpNEQ": (claripy.fpNEQ, lambda a, b, S_: not F.eq(a, b, S_)),
+        "fpLT": (claripy.fpLT, F.lt),
+        "fpLEQ": (claripy.fpLEQ, F.leq),
+        "fpGT": (claripy.fpGT, F.gt),
+        "fpGEQ": (claripy.fpGEQ, F.geq),
+    }
+    one = claripy.FPV(1.0, cs)
+    shapes = {"f,f": (f, f, lambda a, b: (a, a)), "f,g": (f, g, lambda a, b: (a, b)), "f,1.0": (f, one, lambda a, b: (a, F.bits_of_pyfloat(1.0, S))), "fpAbs(f),f": (claripy.fpAbs(f), f, lambda a, b: (F.fabs(a, S), a)), "fpNeg(f),fpNeg(f)": (claripy.fpNeg(f), claripy.fpNeg(f), lambda a, b: (F.neg(a, S), F.neg(a, S)))}
+    eps = _entry_points()
+    for opn, (cf, rf) in ops.items():
+        for shn, (l, r, pick) in shapes.items():
+            e = cf(l, r)
+            for neg in (False, True):
+                ee = claripy.Not(e) if neg else e
+                vals = set()
+                for a in A:
+                    for b in A if "g" in shn else [A[0]]:
+                        pa, pb = pick(a, b)
+                        if F.is_nan(pa, S) or F.is_nan(pb, S):
+                            v = opn == "fpNEQ"  # every comparison with NaN is false, != is true
+                        else:
+                            v = rf(pa, pb, S)
+                        vals.add((not v) if neg else v)
+                for order in (eps, eps[::-1]):
+                    _clear_truth_caches()
+                    for name, fn, polarity in order:
+                        part.count("transitions")
+                        part.count("fp_truth_queries")
+                        try:
+                            ans = fn(ee)
+                        except ClaripyError:
+                            continue
+                        except Exception as ex:  # noqa: BLE001
+                            part.fail(f"{name}:raised:{type(ex).__name__}", f"{sname}|{'Not ' if neg else ''}{opn}({shn})|{name}", str(ex)[:160])
+                            continue
+                        if ans and (polarity not in vals or (not polarity) in vals):
+                            part.fail(f"lie:{name}:{opn}", f"{sname}|{'Not ' if neg else ''}{opn}({shn})|{name}", {"answer": True, "values_over_alphabet": sorted(vals)}, {"kind": "fp", "sort": sname})
+    part.sample({"fp_truth": sname, "alphabet": len(A)}, limit=1)
+    return part.dump()
+
+
 def run(tier: str) -> int:
     rep = Report(
         PID,
@@ -315,6 +369,8 @@ def run(tier: str) -> int:
     exprspace.run_e1(rep, "mc.checks.c10:monitor", cfgs)
     rep.extra["seconds_part_A"] = round(time.time() - t0, 1)
     rep.extra["bool_states"] = rep.counts.get("bool_states", 0)
+    for res in pmap(_fp_truth_job, ["FLOAT", "DOUBLE"]):
+        rep.merge(res)
     for cls, cfg, depth, max_adds in plan:
         pres = prefixes(depth, max_adds, PREFIX_EVENTS)
         chunks = [pres[i::64] for i in range(64)]
@@ -341,6 +397,9 @@ def replay(path: str) -> int:
             p = Part()
             monitor(sp, tr, p, {})
             hit = bool(p.failures)
+        elif rp.get("kind") == "fp":
+            res = _fp_truth_job(rp["sort"])
+            hit = any(f["case"] == c["case"] for f in res["failures"])
         elif rp.get("kind") == "e4":
             chunk = [tuple(tuple(e) for e in rp["prefix"])]
             xs = sorted({rp["ev"][2]} | {"none"})
